@@ -161,6 +161,26 @@ class Executor:
         finally:
             s.pop()
 
+    def check_cover(self, st):
+        '''the satisfiability check behind a vacuity guard: the quick feasibility
+        budget (250 ms) can run out on a busy machine, so `unknown` is retried
+        with a budget that does not depend on load'''
+        r = self.check(st)
+        if r != z3.unknown:
+            return r
+        for budget in (5000, 30000):
+            s = z3.Solver()
+            s.set('timeout', budget)
+            for a in C.str_axioms(): s.add(a)
+            for a in self.axioms:
+                if not has_quant(a): s.add(a)
+            for a in st.pc:
+                if not has_quant(a): s.add(a)
+            r = s.check()
+            if r != z3.unknown:
+                return r
+        return r
+
     def feasible(self, st, extra=None):
         return self.check(st, extra) != z3.unsat
 
